@@ -49,6 +49,7 @@ DISPATCH = {
 
 
 def run(ctx, obs):
+    isotropic_fast_path(ctx, obs)
     # Kendall tau-a: the second sort (by x) must keep the y-order inside x-ties, which the first sort established - both go
     # through _sort_and_rank, so its argsort has to be a stable one
     from ..rules.containers import stable_sorts
@@ -159,3 +160,45 @@ def operand_order(ctx, obs, rule='AXIS'):
             obs.check(ok, rule, q, 'callback receives (element of stack 1, element of stack 2)',
                       f'`{norm(c.node)}`: first/second argument do not derive from vectors1/vectors2 respectively',
                       '', where(prog, f, c.node))
+
+
+def isotropic_fast_path(ctx, obs, rule='ISO'):
+    """_cov_weighting double-centres the second-moment vectors and THEN rescales them by 1/sqrt(sigma_i sigma_j).  Centring and
+    rescaling commute only when all variances are equal, so the fast path equals r1' V^-1 r2 / sqrt(..) (V = (C Sigma C')^2
+    elementwise, the definition used by the slow path and for matrix-valued sigma_k) only for an isotropic Sigma.  Structural
+    clause: every route from _cosine_cov_weighted to _cov_weighting with a given sigma_k passes a test on the VALUES of sigma_k
+    (not only on `is None` / `.ndim`)."""
+    prog = ctx.prog
+    q = M + '_cosine_cov_weighted'
+    f = prog.func(q)
+    calls = [c for c in ast.walk(f.node) if isinstance(c, ast.Call) and isinstance(c.func, ast.Name) and c.func.id == '_cov_weighting']
+    if not calls:
+        obs.unk(rule, q, 'fast whitening path', 'no _cov_weighting call', where(prog, f, f.node))
+        return
+    sparam = 'sigma_k'
+
+    def value_test(t) -> bool:
+        """does the expression look at the entries of sigma_k (anything beyond `sigma_k is None` and `sigma_k.ndim/shape`)?"""
+        for n in ast.walk(t):
+            if isinstance(n, ast.Name) and n.id == sparam:
+                par = parents.get(id(n))
+                if isinstance(par, ast.Compare) and any(isinstance(o, (ast.Is, ast.IsNot)) for o in par.ops):
+                    continue
+                if isinstance(par, ast.Attribute) and par.attr in ('ndim', 'shape', 'size', 'dtype'):
+                    continue
+                return True
+        return False
+    parents = {}
+    for n in ast.walk(f.node):
+        for ch in ast.iter_child_nodes(n):
+            parents[id(ch)] = n
+    for c in calls:
+        guards = [g for g in ast.walk(f.node) if isinstance(g, ast.If) and any(x is c for x in ast.walk(g))]
+        guarded = any(value_test(g.test) for g in guards)
+        con = 'the centre-then-rescale shortcut is only taken for an isotropic pattern covariance'
+        if guarded:
+            obs.ok(rule, q, con, 'the dispatch looks at the values of sigma_k', where(prog, f, c))
+        else:
+            obs.bad(rule, q, con, f'`{norm(c)[:60]}` is reached for every 1-D sigma_k (the dispatch only tests `is None` / `.ndim`): for '
+                    f'unequal variances the result differs from r1\' V^-1 r2 / sqrt(r1\' V^-1 r1 r2\' V^-1 r2) and from the result for '
+                    f'the same covariance given as a diagonal matrix', where(prog, f, c))
